@@ -43,6 +43,13 @@ Theorem c01_hll_bounds_tighten_with_k :
   fle (hll_upper (lgk + 1) ooo s est) (hll_upper lgk ooo s est).
 Proof. exact hll_bounds_tighten_with_k. Qed.
 
+(* the two transcriptions of get_rel_err in this development (Model/HllEst.v, tied bit-for-bit by C02; Model/Bounds.v,
+   the one the theorems above are about) are the same function on the whole domain *)
+Theorem c01_hll_rel_err_models_agree :
+  forall lgk up s, 4 <= lgk <= 21 -> 1 <= s <= 3 ->
+  bits_of_float (HllEst.get_rel_err_hip lgk up s) = bits_of_float (hll_rel_err lgk up false s).
+Proof. exact hll_rel_err_models_agree. Qed.
+
 (* ---- HLL in coupon mode (list / hash set; at most 196608 coupons for lg_k <= 21): for EVERY coupon count the
         cubic-interpolation estimate is finite and at least the count, the bounds are ordered and nested, and even the
         widest lower bound is at least the count.  [coupon_ok] spells this out as f64 comparisons (CouponSweepDefs.v);
